@@ -19,6 +19,22 @@ class Closure:
         self.func = func
 
 
+class Obj:
+    """opaque python object value with symbolic attribute / call / operator behaviour"""
+
+    def vn_getattr(self, name, vn, st, node):
+        return None
+
+    def vn_call(self, vn, call, args, kw, st):
+        return None
+
+    def vn_binop(self, op, other, reflected, vn, node):
+        return None
+
+    def as_term(self):
+        return T.sym("<obj %s>" % type(self).__name__, real=True)
+
+
 class State:
     __slots__ = ("env", "conds", "status", "ret", "events")
 
@@ -41,6 +57,9 @@ NEG = {"lt": "ge_", "le": "gt_", "eq": "ne", "ne": "eq", "is": "isnot", "isnot":
 NONE = T.sym("None", real=True)
 TRUE = T.sym("True", real=True)
 FALSE = T.sym("False", real=True)
+
+
+REVERSE = T.app("slice", NONE, NONE, T.const(-1))
 
 
 def negate(c):
@@ -73,6 +92,47 @@ def negate(c):
 
 def is_tuple(v):
     return isinstance(v, tuple)
+
+
+SEQ_APPS = {"seq", "comp", "repeat", "concat", "list", "shape", "range", "zip"}
+
+
+def is_seq(v):
+    """syntactically known to be a python sequence (so `+` is concatenation, not addition)"""
+    if isinstance(v, tuple):
+        return True
+    if isinstance(v, T.Poly):
+        a = v.single_atom()
+        if a is not None and a[0] == "app":
+            if a[1] in SEQ_APPS or a[1] == "attr:shape":
+                return True
+            if a[1] == "getitem" and len(a[2]) == 2 and a[2][1][0] == "P":
+                i = T.from_key(a[2][1][1]).single_atom()
+                if i is not None and i[0] == "app" and i[1] == "slice":
+                    return is_seq_or_unknown(T.dec(a[2][0]))
+    return False
+
+
+def is_seq_or_unknown(v):
+    return True
+
+
+def concat(a, b):
+    """associative, non-commutative concatenation of sequence values"""
+    parts = []
+    for v in (a, b):
+        at = v.single_atom() if isinstance(v, T.Poly) else None
+        if at is not None and at[0] == "app" and at[1] == "concat":
+            parts.extend(T.dec(x) for x in at[2])
+        elif isinstance(v, tuple) and parts and isinstance(parts[-1], tuple):
+            parts[-1] = parts[-1] + v
+        elif isinstance(v, tuple) and len(v) == 0:
+            continue
+        else:
+            parts.append(v)
+    if len(parts) == 1:
+        return parts[0]
+    return T.app("concat", *parts)
 
 
 class VN:
@@ -139,6 +199,12 @@ class VN:
         k = self.key_of(e)
         if k is not None and k in st.env:
             return st.env[k]
+        if k is not None and k.startswith("self.") and isinstance(st.env.get("self"), Obj):
+            base = self.ev(e.value, st)
+            if isinstance(base, Obj):
+                r = base.vn_getattr(e.attr, self, st, e)
+                if r is not None:
+                    return r
         if k is not None and (k.startswith("self.") and k.count(".") == 1):
             if self.name_hook is not None:
                 r = self.name_hook(self, e, st)
@@ -152,6 +218,11 @@ class VN:
         if k is not None and k.split(".")[0] in ("np", "xp", "numpy", "backend", "sp", "util", "math"):
             return T.sym(k, real=True)
         base = self.ev(e.value, st)
+        if isinstance(base, Obj):
+            r = base.vn_getattr(e.attr, self, st, e)
+            if r is not None:
+                return r
+            return T.app("attr:" + e.attr, base.as_term())
         if e.attr == "T" and isinstance(base, T.Poly):
             return T.app("transpose", base)
         if e.attr in ("real",) and isinstance(base, T.Poly):
@@ -166,6 +237,10 @@ class VN:
 
     def ev_UnaryOp(self, e, st):
         v = self.ev(e.operand, st)
+        if isinstance(e.op, ast.USub) and isinstance(v, Obj):
+            r = v.vn_binop(ast.Mult(), T.const(-1), True, self, e)
+            if r is not None:
+                return r
         if isinstance(e.op, ast.USub):
             if is_tuple(v):
                 raise Unrecognised("negated tuple", e)
@@ -183,6 +258,20 @@ class VN:
         return self.binop(e.op, a, b, e)
 
     def binop(self, op, a, b, node=None):
+        if isinstance(a, Obj):
+            r = a.vn_binop(op, b, False, self, node)
+            if r is not None:
+                return r
+        if isinstance(b, Obj):
+            r = b.vn_binop(op, a, True, self, node)
+            if r is not None:
+                return r
+        if isinstance(op, ast.Add) and (is_seq(a) or is_seq(b)) and not (is_tuple(a) and is_tuple(b)):
+            return concat(a, b)
+        if isinstance(op, ast.Mod) and isinstance(a, T.Poly) and isinstance(b, T.Poly):
+            at = a.single_atom()
+            if at is not None and at[0] == "app" and at[1] == "mod" and T.dec(at[2][1]) == b:
+                return a  # (x % n) % n = x % n
         if is_tuple(a) or is_tuple(b):
             if isinstance(op, ast.Add) and is_tuple(a) and is_tuple(b):
                 return a + b
@@ -231,6 +320,8 @@ class VN:
     def _as_term(self, v):
         if isinstance(v, T.Poly):
             return v
+        if isinstance(v, Obj):
+            return v.as_term()
         if is_tuple(v):
             return v
         if isinstance(v, Closure):
@@ -272,6 +363,10 @@ class VN:
             return T.app("lt", b, a)
         if isinstance(op, ast.GtE):
             return T.app("le", b, a)
+        if isinstance(op, (ast.Is, ast.IsNot)) and b == NONE and a != NONE and (is_seq(a) or _is_constructed(a)):
+            return FALSE if isinstance(op, ast.Is) else TRUE
+        if isinstance(op, (ast.Is, ast.IsNot)) and a == NONE and b == NONE:
+            return TRUE if isinstance(op, ast.Is) else FALSE
         return T.app(CMP[type(op)], a, b)
 
     def ev_IfExp(self, e, st):
@@ -332,6 +427,10 @@ class VN:
                 if i is not None and -len(base) <= i < len(base):
                     return base[i]
         idx = self._as_term(self.ev(sl, st))
+        if isinstance(base, T.Poly) and idx == REVERSE:
+            ba = base.single_atom()
+            if ba is not None and ba[0] == "app" and ba[1] == "getitem" and T.dec(ba[2][1]) == REVERSE:
+                return T.dec(ba[2][0])  # x[::-1][::-1] = x
         return T.app("getitem", self._as_term(base), idx)
 
     def _int(self, node, st, default):
@@ -361,7 +460,39 @@ class VN:
             for c in g.ifs:
                 iters.append(T.app("if", self._as_term(self.ev(c, env2))))
         elt = self._as_term(self.ev(e.elt, env2))
+        if k == 1 and len(iters) == 1 and elt == T.sym("@0", real=True):
+            return iters[0]  # [x for x in it] has the elements of it
+        # fusion: comp(f(@0), comp(g(@0), it)) = comp(f(g(@0)), it)   (single target, no filters)
+        if k == 1 and len(iters) == 1 and isinstance(elt, T.Poly):
+            ia = iters[0].single_atom() if isinstance(iters[0], T.Poly) else None
+            if ia is not None and ia[0] == "app" and ia[1] == "comp" and len(ia[2]) == 2:
+                inner_elt = T.dec(ia[2][0])
+                inner_it = T.dec(ia[2][1])
+                iat = inner_it.single_atom() if isinstance(inner_it, T.Poly) else None
+                if isinstance(inner_elt, T.Poly) and not (iat is not None and iat[0] == "app" and iat[1] in ("zip", "if")):
+                    try:
+                        fused = T.subst(elt, {"@0": inner_elt})
+                        fused = self._renorm_mod(fused)
+                        if fused == T.sym("@0", real=True):
+                            return inner_it
+                        return T.app(kind, fused, inner_it)
+                    except TypeError:
+                        pass
         return T.app(kind, elt, *iters)
+
+    def _renorm_mod(self, t):
+        """apply (x % n) % n = x % n inside a term (after substitution)"""
+        changed = True
+        while changed:
+            changed = False
+            for a in T.apps(t, "mod"):
+                x, n = T.dec(a[2][0]), T.dec(a[2][1])
+                xa = x.single_atom() if isinstance(x, T.Poly) else None
+                if xa is not None and xa[0] == "app" and xa[1] == "mod" and T.dec(xa[2][1]) == n:
+                    t = _replace_atom(t, a, x)
+                    changed = True
+                    break
+        return t
 
     def _flat_targets(self, t, out):
         if isinstance(t, ast.Name):
@@ -392,6 +523,31 @@ class VN:
         k = self.key_of(f)
         if k is not None and isinstance(st.env.get(k), Closure):
             return self.call_closure(st.env[k], e, st)
+        if isinstance(f, (ast.Name, ast.Attribute, ast.Subscript, ast.Call)):
+            fv = None
+            if k is not None and isinstance(st.env.get(k), Obj):
+                fv = st.env[k]
+            elif isinstance(f, ast.Attribute):
+                kb = self.key_of(f.value)
+                if (kb is not None and isinstance(st.env.get(kb), Obj)) or isinstance(f.value, (ast.Call, ast.Attribute, ast.Subscript)):
+                    try:
+                        bv = self.ev(f.value, st)
+                    except Unrecognised:
+                        bv = None
+                    if isinstance(bv, Obj):
+                        fv = bv.vn_getattr(f.attr, self, st, f)
+                        if fv is None:
+                            a_ = [self.ev(a, st) for a in e.args]
+                            kw_ = {kk.arg: self.ev(kk.value, st) for kk in e.keywords if kk.arg}
+                            r = bv.vn_call_method(f.attr, self, e, a_, kw_, st) if hasattr(bv, "vn_call_method") else None
+                            if r is not None:
+                                return r
+            if isinstance(fv, Obj):
+                a_ = [self.ev(a, st) for a in e.args]
+                kw_ = {kk.arg: self.ev(kk.value, st) for kk in e.keywords if kk.arg}
+                r = fv.vn_call(self, e, a_, kw_, st)
+                if r is not None:
+                    return r
         args = [self.ev(a, st) for a in e.args if not isinstance(a, ast.Starred)]
         if any(isinstance(a, ast.Starred) for a in e.args):
             args = [self._as_term(self.ev(a, st)) for a in e.args]
@@ -414,7 +570,7 @@ class VN:
             if fn.qual in self.inline and self.depth < self.max_depth:
                 return self.inline_call(fn, e, st)
             bound = self.bind_values(fn, e, st)
-            return T.app("fn:" + fn.qual, *[self._as_term(bound[p]) for p in sorted(bound)])
+            return T.app("fn:" + fn.qual, *[T.app("kw:" + p, self._as_term(bound[p])) for p in sorted(bound)])
         if tgt is not None and tgt[0] == "class":
             bound = self.bind_values(tgt[1], e, st)
             return T.app("new:" + tgt[1].qual, *[T.app("kw:" + p, self._as_term(bound[p])) for p in sorted(bound)])
@@ -614,7 +770,8 @@ class VN:
                 return T.const(len(a0))
             return T.app("len", self._as_term(a0), real=True)
         if short in ("list", "tuple") and args:
-            return a0 if is_tuple(a0) else T.app("list", self._as_term(a0))
+            # container type is irrelevant to every question asked of these terms
+            return a0
         if short == "zip":
             return T.app("zip", *[self._as_term(x) for x in args])
         if short == "range":
@@ -750,6 +907,45 @@ class VN:
         if isinstance(s, ast.Delete):
             return [st]
         raise Unrecognised("value numbering: unsupported statement %s" % type(s).__name__, s)
+
+
+def _replace_atom(t, old_atom, new_term):
+    """structural replacement of one application atom by a term"""
+    def rb(p):
+        if isinstance(p, tuple):
+            return tuple(rb(x) for x in p)
+        if not isinstance(p, T.Poly):
+            return p
+        out = T.Poly()
+        for m, c in p.t.items():
+            term = T.Poly({frozenset(): c})
+            for a, e in m:
+                term = T.mul_raw(term, T.power(ra(a), e))
+            out = T.add(out, term)
+        return out
+
+    def ra(a):
+        if a == old_atom:
+            return new_term
+        if a[0] == "app":
+            args = [rb(T.dec(x)) for x in a[2]]
+            return T.app(a[1], *args, real=a[3])
+        if a[0] == "cmp":
+            inner = rb(T.from_key(a[1]))
+            return inner if len(inner.t) == 1 else T.atom_poly(("cmp", inner.key()))
+        return T.atom_poly(a)
+
+    return rb(t)
+
+
+def _is_constructed(v):
+    if isinstance(v, T.Poly):
+        if v.as_fraction() is not None:
+            return True
+        a = v.single_atom()
+        return a is not None and a[0] == "app" and (a[1].startswith("new:") or a[1].startswith("call:numpy.")
+                                                     or a[1] in ("argsort", "not", "loopval"))
+    return False
 
 
 def cond_text(conds):
